@@ -1,5 +1,6 @@
 import Originium.Model.DiskProgMain
 import Originium.Model.LevelTie
+import Originium.Model.DBTie
 /-! # C03 — acknowledged commits survive a crash at any point, and Open always recovers
 
 Process-crash model: the disk after a kill is the disk after some prefix of the sequence of
@@ -133,6 +134,13 @@ theorem C03_code_fresh_table_name (idxs : List Int) :
 /-- non-vacuity: handles listed as a recovery lists them (`0-10` before `0-2`) -/
 example : GenLevel.maxLevelIdx [0, 1, 10, 11, 2, 9] + 1 = 12 := by decide
 
+
+/-- the Go code itself (`DB.flushImmutable`, translated on every run): the wal of a flushed memtable is deleted only after
+    the table has been added to L0; if adding fails the wal stays -/
+theorem C03_code_flush_then_delete (ff df : Bool) :
+    GenDB.flushImmutable ff df [] = (if ff then none else if df then none else some ["manager.flushToL0", "wal.Delete"]) :=
+  DBTie.flushImmutable_table ff df
+
 #print axioms C03_every_crash_point
 #print axioms C03_open_recovers
 #print axioms C03_acked_visible
@@ -140,4 +148,5 @@ example : GenLevel.maxLevelIdx [0, 1, 10, 11, 2, 9] + 1 = 12 := by decide
 #print axioms C03_program_obeys_rules
 #print axioms C03_program_crash_anywhere
 #print axioms C03_code_fresh_table_name
+#print axioms C03_code_flush_then_delete
 end Props
